@@ -1,4 +1,35 @@
-import ScryerModel.Model.ArithInt
+import ScryerModel.Proofs.ArithInt
+/-!
+# C01 — Integer arithmetic is exact at every magnitude
+
+Property theorems over the mechanism model `Model/ArithInt.lean` (which mirrors
+`arithmetic_ops.rs` branch by branch). `Num.val` is the mathematical integer a `Number`
+denotes; `Num.wf` says a fixnum payload is inside the 56-bit range. Every theorem is for all
+integers — no bound on magnitude. Only statements live here; lemmas are in `Proofs/ArithInt`.
+-/
 namespace Scryer.Arith
-theorem C01_placeholder : (1 : Nat) = 1 := rfl
+
+/-- `+` is exact for every pair of representations, across the i64 and fixnum boundaries. -/
+theorem C01_add_exact (a b : Num) : (add a b).val = a.val + b.val ∧ (add a b).wf :=
+  ⟨add_val a b, add_wf a b⟩
+
+theorem C01_sub_exact (a b : Num) : (sub a b).val = a.val - b.val ∧ (sub a b).wf :=
+  ⟨sub_val a b, sub_wf a b⟩
+
+theorem C01_mul_exact (a b : Num) : (mul a b).val = a.val * b.val ∧ (mul a b).wf :=
+  ⟨mul_val a b, mul_wf a b⟩
+
+theorem C01_neg_exact (a : Num) : (neg a).val = - a.val ∧ (neg a).wf :=
+  ⟨neg_val a, neg_wf a⟩
+
+/-- `abs` is exact; the special constant used for `Fixnum::MIN` is the right one. -/
+theorem C01_abs_exact (a : Num) (h : a.wf) : (abs a).val = a.val.natAbs ∧ (abs a).wf :=
+  ⟨abs_val a h, abs_wf a⟩
+
+-- non-vacuity: the boundary cases really take the overflow branches
+example : add (.fix (2^55 - 1)) (.fix 1) = .big (2^55) := by decide
+example : abs (.fix (-(2^55))) = .big (2^55) ∧ (Num.fix (-(2^55))).wf := ⟨by decide, by decide⟩
+example : neg (.fix (-(2^55))) = .big (2^55) := by decide
+example : mul (.fix (2^54)) (.fix (2^54)) = .big (2^108) := by decide
+
 end Scryer.Arith
